@@ -35,7 +35,10 @@ def gen_case(rng: random.Random, tier: str) -> dict:
     select = None
     if produced and rng.random() < 0.2:
         select = rng.sample(produced, rng.randint(1, min(3, len(produced))))
-    return {"graph": g, "inputs": inp, "select": select, "async": [gen.gen_async_cfg(rng) for _ in range(2)]}
+    if rng.random() < 0.3:
+        gen.add_falsy_consts(rng, g)  # legal but falsy outputs: 0, False, "", [], None
+    return {"graph": g, "inputs": inp, "select": select, "async": [gen.gen_async_cfg(rng) for _ in range(2)],
+            "touch": rng.random() < 0.3, "kw_split": rng.randrange(1 << 30) if rng.random() < 0.3 else None}
 
 
 def _provided(doc: dict, graph) -> dict:
@@ -99,6 +102,8 @@ def _gspec(doc: dict) -> dict:
     g = copy.deepcopy(doc["graph"])
     if doc.get("select"):
         g["select"] = doc["select"]
+    if doc.get("touch"):
+        g["touch"] = True
     return g
 
 
@@ -112,10 +117,6 @@ def run_case(doc: dict) -> dict:
     plans = [("sync", "sync", None)] + [(f"async{i}", "async", c) for i, c in enumerate(doc["async"])] + [("async_syncfn", "async_syncfn", doc["async"][0])]
     try:
         for label, mode, cfg in plans:
-            # inputs are decided from the compiled graph's own required set
-            def prep(rt, graph, comp, _d=doc, _box=worlds):
-                pass
-
             w = _run(doc, gspec, mode, cfg, bind)
             w["label"] = label
             worlds.append(w)
@@ -155,34 +156,9 @@ def run_case(doc: dict) -> dict:
 
 
 def _run(doc: dict, gspec: dict, mode: str, cfg, bind: dict) -> dict:
-    box: dict = {}
-
-    def prep(rt, graph, comp):
-        box["prov"] = _provided(doc, graph)
-
-    # two-phase: values depend on the compiled graph, so compile via prepare hook
-    from hgsim.case import build
-    from hgsim.rt import Runtime
-    from hgsim.world import call_async, call_sync, make_runner, patched
-    from hgsim.case import all_sync
-
-    cfg = cfg or {}
-    rt = Runtime(schedule=cfg.get("schedule") if mode != "sync" else None)
-    with patched(rt):
-        spec = all_sync(gspec) if mode == "async_syncfn" else gspec
-        graph, comp = build(spec, rt, "sync" if mode == "sync" else "async", bind)
-        prov = _provided(doc, graph)
-        if mode == "sync":
-            runner = make_runner("sync", rt)
-            out = call_sync(rt, lambda: runner.run(graph, dict(prov)))
-        else:
-            runner = make_runner("async", rt)
-            kw = {}
-            mc = cfg.get("max_concurrency")
-            if mc is not None:
-                kw["max_concurrency"] = mc
-            out = call_async(rt, [lambda: runner.run(graph, dict(prov), **kw)], shuffle_seed=cfg.get("shuffle"), limits=[mc])[0]
-    return {"out": out, "rt": rt, "graph": graph, "prov": prov}
+    w = run_world(gspec, lambda graph: _provided(doc, graph), mode=mode, cfg=cfg, bind=bind, kw_split=doc.get("kw_split"))
+    w["prov"] = w["values"]
+    return w
 
 
 def shrink_candidates(doc: dict):
@@ -232,6 +208,11 @@ def shrink_candidates(doc: dict):
         for i in range(len(doc["async"])):
             c = copy.deepcopy(doc)
             del c["async"][i]
+            yield c
+    for key in ("touch", "kw_split"):
+        if doc.get(key):
+            c = copy.deepcopy(doc)
+            c[key] = None
             yield c
     for i, a in enumerate(doc["async"]):
         if a.get("max_concurrency") is not None:
